@@ -825,7 +825,9 @@ def _sbml_to_model(
         cobra_reaction.annotation = _parse_annotations(reaction)
         cobra_reaction.notes = _parse_notes_dict(reaction)
 
-        # set bounds
+        # set bounds (collected first and assigned together: one at a time, each
+        # would be validated against the default value of the other)
+        bound_values = {}
         p_ub, p_lb = None, None
         r_fbc: "libsbml.FbcReactionPlugin" = reaction.getPlugin("fbc")
         if r_fbc:
@@ -834,7 +836,7 @@ def _sbml_to_model(
             if lb_id:
                 p_lb: "libsbml.Parameter" = model.getParameter(lb_id)
                 if p_lb and p_lb.getConstant() and (p_lb.getValue() is not None):
-                    cobra_reaction.lower_bound = p_lb.getValue()
+                    bound_values["lower"] = p_lb.getValue()
                 else:
                     raise CobraSBMLError(
                         f"No constant bound '{p_lb}' for reaction: {reaction}"
@@ -844,7 +846,7 @@ def _sbml_to_model(
             if ub_id:
                 p_ub: "libsbml.Parameter" = model.getParameter(ub_id)
                 if p_ub and p_ub.getConstant() and (p_ub.getValue() is not None):
-                    cobra_reaction.upper_bound = p_ub.getValue()
+                    bound_values["upper"] = p_ub.getValue()
                 else:
                     raise CobraSBMLError(
                         f"No constant bound '{p_ub}' for reaction: {reaction}"
@@ -857,12 +859,12 @@ def _sbml_to_model(
                 "LOWER_BOUND"
             )  # noqa: E501 type: libsbml.LocalParameter
             if p_lb:
-                cobra_reaction.lower_bound = p_lb.getValue()
+                bound_values["lower"] = p_lb.getValue()
             p_ub = klaw.getParameter(
                 "UPPER_BOUND"
             )  # noqa: E501 type: libsbml.LocalParameter
             if p_ub:
-                cobra_reaction.upper_bound = p_ub.getValue()
+                bound_values["upper"] = p_ub.getValue()
 
             if p_ub is not None or p_lb is not None:
                 LOGGER.warning(
@@ -874,7 +876,7 @@ def _sbml_to_model(
         if p_lb is None:
             missing_bounds = True
             lower_bound = config.lower_bound
-            cobra_reaction.lower_bound = lower_bound
+            bound_values["lower"] = lower_bound
             LOGGER.warning(
                 f"Missing lower flux bound set to '{lower_bound}' for "
                 f"reaction: '{reaction}'"
@@ -883,11 +885,13 @@ def _sbml_to_model(
         if p_ub is None:
             missing_bounds = True
             upper_bound = config.upper_bound
-            cobra_reaction.upper_bound = upper_bound
+            bound_values["upper"] = upper_bound
             LOGGER.warning(
                 f"Missing upper flux bound set to '{upper_bound}' for "
                 f"reaction: '{reaction}'"
             )
+
+        cobra_reaction.bounds = (bound_values["lower"], bound_values["upper"])
 
         # add reaction
         reactions.append(cobra_reaction)
